@@ -299,6 +299,9 @@ func r11sibX(c *core.Ctx) {
 		}
 	}
 	if wholeAtoi {
+		// which layout is used must still follow the number of MNC digits (a choice by the MNC's numeric
+		// value packs 3-digit MNCs with a leading zero as 2-digit ones): that part does not need the digits
+		c.Check(seen[true] && seen[false], R, "nasConvert.PlmnIDToNas:mnc3-guard", fn.Pos(), "MNC digit 3 used iff len(Mnc) == 3", "the third MNC digit must be used exactly when the MNC has three digits (filler F otherwise): no path of PlmnIDToNas is selected by len(Mnc) == 3")
 		c.SoftUndecided("%s: PlmnIDToNas takes the digits arithmetically from the converted MCC/MNC numbers; digit placement is not decided in that form", R)
 		return
 	}
